@@ -104,6 +104,8 @@ def events_for(p, rng, quick):
         sk = impl.hyperloglog.HyperLogLog(p, 0)
         sk.registers[:] = regs
         got = float(sk.query())
+        if not math.isfinite(got):
+            raise common.ImplMisbehaved("HyperLogLog(p=%d).query() returned %r for the register array '%s'" % (p, got, label))
         o = oracle(regs, p)
         m = 1 << p
         V = o["V"]
